@@ -178,8 +178,10 @@ Lemma pm_symmetric_form :
   (a = b -> gasres_np_p_abs_mean bp_FROM_NODE_T_SWITCHED bp_TOUTINIT fl_compressibility np_from_PAMB np_from_TINIT np_to_PAMB np_to_TINIT p_from p_to v_mps = a).
 Proof.
   intros until v_mps. intros a b Hs. unfold gasres_np_p_abs_mean. cbv zeta. fold a b. split.
-  - intros Hne. assert (a - b <> 0) by lra. field. split; [| exact Hs].
-    replace (a * a - b * b) with ((a - b) * (a + b)) by ring. apply Rmult_integral_contrapositive_currified; assumption.
+  - intros Hne. assert (Hd : a - b <> 0) by lra.
+    assert (Hq : a ^ 2 - b ^ 2 <> 0).
+    { replace (a ^ 2 - b ^ 2) with ((a - b) * (a + b)) by ring. apply Rmult_integral_contrapositive_currified; assumption. }
+    field. split; [exact Hq | exact Hs].
   - intros E. rewrite <- E in *. field. lra.
 Qed.
 
